@@ -1,0 +1,41 @@
+// SPDX-License-Identifier: Apache-2.0
+//go:build verif
+
+package pfcpiface
+
+// VerifUP4Stats reports the occupancy of the UP4 plug-in's identifier pools and maps (nil when the
+// datapath is not UP4). It reads the plug-in's state without synchronisation: call it only while no
+// request is in flight.
+func (p *PFCPIface) VerifUP4Stats() map[string]int {
+	p.mu.Lock()
+	defer p.mu.Unlock()
+
+	if p.upf == nil {
+		return nil
+	}
+
+	up4, ok := p.upf.datapath.(*UP4)
+	if !ok {
+		return nil
+	}
+
+	st := map[string]int{
+		"peer_pool": len(up4.tunnelPeerIDsPool), "app_pool": len(up4.applicationIDsPool),
+		"peers": len(up4.tunnelPeerIDs), "apps": len(up4.applicationIDs), "meters": len(up4.meters),
+		"ue2f": len(up4.ueAddrToFSEID), "f2ue": len(up4.fseidToUEAddr),
+		"ctr_free": -1, "app_free": -1, "sess_free": -1,
+	}
+	if len(up4.counters) > 0 && up4.counters[0].counterIDsPool != nil {
+		st["ctr_free"] = up4.counters[0].counterIDsPool.Cardinality()
+	}
+
+	if up4.appMeterCellIDsPool != nil {
+		st["app_free"] = up4.appMeterCellIDsPool.Cardinality()
+	}
+
+	if up4.sessMeterCellIDsPool != nil {
+		st["sess_free"] = up4.sessMeterCellIDsPool.Cardinality()
+	}
+
+	return st
+}
